@@ -90,7 +90,28 @@ def run_kernel(c):
         else:
             o, l = ops.ws2dwcvp(y, nd, float(c["p"]), llas, bool(c["robust"]))
         fx = ops.ws2dgu(y, float(l), nd) if k == "wcv" else ops.ws2dpgu(y, float(l), nd, float(c["p"]))
-        return dict(out=[int(v) for v in o], lopt=float(l), fixed_out=[int(v) for v in fx],
+        solves = None
+        if c["robust"]:
+            # the kernel's own source in the interpreter, its solver replaced by a wrapper that notes how many cells carried weight in
+            # each solve (used only when the bit-exact correspondence breaks, to look for a degenerate solve)
+            try:
+                from interp import _NB  # noqa
+                interpreted(ops.ws2dwcv)  # fills _NB["ws2d"]
+                seen = []
+
+                def ws2d_rec(yy, lam, ww):
+                    seen.append(int(np.count_nonzero(np.asarray(ww))))
+                    return _NB["ws2d"](yy, lam, ww)
+                io, il = np.zeros(n, dtype="int16"), np.zeros(1)
+                if k == "wcv":
+                    interpreted(ops.ws2dwcv, None, extra={"ws2d": ws2d_rec})(y, nd, llas, True, io, il)
+                else:
+                    interpreted(ops.ws2dwcvp, None, extra={"ws2d": ws2d_rec})(y, nd, float(c["p"]), llas, True, io, il)
+                if seen:
+                    solves = dict(min_weighted=min(seen), n_solves=len(seen), same_as_compiled=bool([int(v) for v in io] == [int(v) for v in o] and float(il[0]) == float(l)))
+            except Exception as e:  # noqa
+                solves = dict(error=repr(e)[:200])
+        return dict(out=[int(v) for v in o], lopt=float(l), fixed_out=[int(v) for v in fx], solves=solves,
                     cos=[[(j * math.pi) / n, math.cos((j * math.pi) / n)] for j in range(n)],
                     pow=[[float(x), pow(10.0, float(x))] for x in llas])
     raise ValueError(k)
